@@ -129,6 +129,24 @@ func c05bRunInBubble(c c05bCase) (out Outcome) {
 				return viol("wire-row-mismatch", "call %s was built for row %q, the wire says %q", mk, op.Key, r.Rows[i])
 			}
 		}
+		// the cells a frame carries are those of its own calls: row of the call, marker qualifier, value as built
+		for _, ce := range r.Cells {
+			op, ok := want[string(ce.Qualifier)]
+			if !ok || op.Kind != "put" {
+				return viol("foreign-cell-on-wire", "frame %d (call id %d, %s) carries a cell %q/%q that no put of this run built", len(ids), r.CallID, r.Method, ce.Row, ce.Qualifier)
+			}
+			if !bytes.Equal(ce.Row, op.Key) || len(ce.Value) != op.ValueLen || bytes.Count(ce.Value, []byte{'v'}) != op.ValueLen {
+				return viol("cell-content-mismatch", "call %s was built with row %q and a value of %d x 'v'; its cell on the wire has row %q and %d value bytes",
+					op.Marker, op.Key, op.ValueLen, ce.Row, len(ce.Value))
+			}
+			found := false
+			for _, mk := range r.Markers {
+				found = found || mk == op.Marker
+			}
+			if !found {
+				return viol("cell-in-wrong-frame", "the cell of call %s travels in the frame of calls %v", op.Marker, r.Markers)
+			}
+		}
 	}
 	var missing []string
 	for mk := range want {
@@ -167,7 +185,7 @@ func c05bGen(t *rapid.T) c05bCase {
 				SkipBatch: rapid.Bool().Draw(t, "skipbatch"), Key: rapid.SliceOfN(rapid.Byte(), 0, 6).Draw(t, "key"),
 				Marker: fmt.Sprintf("mk%d", n)}
 			if op.Kind == "put" {
-				op.ValueLen = rapid.SampledFrom([]int{0, 1, 10, 300, 5000}).Draw(t, "vlen")
+				op.ValueLen = rapid.SampledFrom([]int{0, 1, 10, 300, 5000, 5000, 70000, 300000}).Draw(t, "vlen")
 			}
 			ops = append(ops, op)
 		}
